@@ -3,6 +3,7 @@ package bq
 import (
 	"context"
 	"fmt"
+	"sync"
 
 	"bwverif/cv"
 
@@ -122,4 +123,32 @@ func Snapshot(ctx context.Context, st storage.Store) (map[string][]string, error
 		res[n] = rows
 	}
 	return res, nil
+}
+
+// LazyStore defers building the store until a statement actually touches it
+// (most malformed statements are rejected by the parser first).
+type LazyStore struct {
+	Make func() storage.Store
+	once sync.Once
+	st   storage.Store
+}
+
+func (l *LazyStore) get() storage.Store {
+	l.once.Do(func() { l.st = l.Make() })
+	return l.st
+}
+
+func (l *LazyStore) Name(ctx context.Context) string    { return l.get().Name(ctx) }
+func (l *LazyStore) Version(ctx context.Context) string { return l.get().Version(ctx) }
+func (l *LazyStore) NewGraph(ctx context.Context, id string) (storage.Graph, error) {
+	return l.get().NewGraph(ctx, id)
+}
+func (l *LazyStore) Graph(ctx context.Context, id string) (storage.Graph, error) {
+	return l.get().Graph(ctx, id)
+}
+func (l *LazyStore) DeleteGraph(ctx context.Context, id string) error {
+	return l.get().DeleteGraph(ctx, id)
+}
+func (l *LazyStore) GraphNames(ctx context.Context, names chan<- string) error {
+	return l.get().GraphNames(ctx, names)
 }
